@@ -177,6 +177,67 @@ func templates() []template {
 	add("tmap", 'E', "map [ $T ] $T { $E : $E }", false, true)
 	add("tmapsi", 'E', "map [ string ] int64 { $E : $E }", true, true)
 	add("imap", 'E', "map { $E : $E }", true, true)
+	// typed nil pointers flowing into every place that converts to a declared type
+	add("pstore", 'S', "$D = $P", false, false)
+	add("pstore2", 'S', "$D , $D = $P , $P", false, false)
+	add("pstoreidx", 'S', "ps [ $E ] = $P", false, false)
+	add("pstoreidxi", 'S', "pa [ $E ] = $P", false, false)
+	add("pstoremap", 'S', "pms [ $E ] = $P", false, false)
+	add("psend", 'E', "cps <- $P", false, false)
+	add("psendi", 'E', "cpi <- $P", false, false)
+	add("pcall", 'E', "gq ( $P )", false, true)
+	add("pcalli", 'E', "gr ( $P )", false, true)
+	add("pcall2", 'E', "gq2 ( $P , $P )", false, true)
+	add("pcallv", 'E', "gqv ( $P , $P )", false, true)
+	add("pspread", 'E', "gq ( [ $P ] ... )", false, true)
+	add("pspread2", 'E', "gq2 ( [ $P , $P ] ... )", false, true)
+	add("pspreadv", 'E', "gqv ( [ $P , $P ] ... )", false, true)
+	add("pspreads", 'E', "gq ( $E ... )", false, true)
+	add("pgo", 'S', "go gq ( $P )", false, false)
+	add("pdefer", 'S', "defer gq ( $P )", false, false)
+	add("pmaplit", 'E', "map [ string ] * string { s : $P }", false, true)
+	add("pmapliti", 'E', "map [ string ] * int64 { s : $P }", false, true)
+	add("pmaplitk", 'E', "map [ * string ] int64 { $P : i1 }", false, true)
+	add("pappend", 'E', "ps + $P", false, false)
+	add("pappendi", 'E', "pa + $P", false, false)
+	add("pappendl", 'E', "ps + [ $P ]", false, false)
+	add("pappendli", 'E', "pa + [ $P , $P ]", false, false)
+	add("pappendeq", 'E', "ps += $P", false, false)
+	add("pcmp", 'E', "$P == $P", false, false)
+	add("pin", 'E', "$P in ps", false, false)
+	add("pderef", 'E', "* $P", false, false)
+	add("pmember", 'E', "$P . A", false, true)
+	add("pfuncret", 'E', "gq ( func ( ) { return $P } ( ) )", false, true)
+	add("pforin", 'S', "for x in [ $P , $P ] { $D = x }", false, false)
+	// loop bodies that mutate what the loop ranges over, then use the loop variables
+	add("loopmut2", 'S', "for k , v in $M { $U ; x = v ; y = k }", false, false)
+	add("loopmut2s", 'S', "for k , v in $M { $U ; s + v ; [ k , v ] }", false, false)
+	add("loopmut1", 'S', "for k in $M { $U ; x = k ; s + k }", false, false)
+	add("loopmutidx", 'S', "for k , v in $M { $U ; x = $M [ k ] }", false, false)
+	// NaN, +Inf, -Inf, -0.0 in key and size positions
+	add("fkeyindex", 'E', "$E [ $F ]", false, true)
+	add("fkeylet", 'S', "$E [ $F ] = $E", false, false)
+	add("fkeymap", 'E', "{ $F : $E , $F : $E }", false, true)
+	add("fkeytmap", 'E', "map [ float64 ] int64 { $F : $E }", false, true)
+	add("fkeytmapi", 'E', "map [ int64 ] int64 { $F : $E }", false, true)
+	add("fkeydelete", 'S', "delete ( $E , $F )", false, false)
+	add("fin", 'E', "$F in $E", false, false)
+	add("finl", 'E', "$E in [ $F , $F ]", false, false)
+	add("fswitch", 'S', "switch $F { case $F : $S }", false, false)
+	add("fswitch2", 'S', "switch $E { case $F , $F : $S }", false, false)
+	add("fforin", 'S', "for k , v in { $F : $E , $F : $E } { x = v ; y = k }", false, false)
+	add("fforint", 'S', "for k , v in map [ float64 ] string { $F : $E } { x = v }", false, false)
+	add("fcmp", 'E', "$F == $F", false, false)
+	add("fcmpe", 'E', "$E < $F", false, false)
+	add("fmakeslice", 'E', "make ( [ ] int64 , $F )", false, true)
+	add("fmakeslice2", 'E', "make ( [ ] int64 , $F , $F )", false, true)
+	add("fmakechan", 'E', "make ( chan int64 , $F )", false, true)
+	add("fslice", 'E', "$E [ $F : $F ]", false, true)
+	add("frepeat", 'E', "s * $F", false, false)
+	add("fmod", 'E', "$E % $F", false, false)
+	add("fshift", 'E', "$E << $F", false, false)
+	add("fconv", 'E', "[ ] int64 { $F }", false, true)
+	add("fcfor", 'S', "for x = $F ; x < $F ; x ++ { $S }", false, false)
 	// reflect-refused types in every type position
 	add("rtarr0", 'E', "[ ] $R { }", false, true)
 	add("rtarr1", 'E', "[ ] $R { $E }", false, true)
@@ -321,8 +382,62 @@ func (p *pattern) render(i int64) string {
 	return strings.Join(toks, " ")
 }
 
+// nilPtrAtoms ($P): typed nil pointers of two different pointee types, as names
+// and as the places they naturally come from (fields of a made struct, elements
+// of a made slice), plus two non-nil controls.
+var nilPtrAtoms = []string{"np", "nq", "sp . P", "sp . Q", "pa [ 0 ]", "ps [ 0 ]", "p", "pq"}
+
+// ptrDestAtoms ($D): assignable places with a declared pointer type.
+var ptrDestAtoms = []string{"sp . P", "sp . Q", "pa [ 0 ]", "ps [ 0 ]", "ps [ 2 ]", "pmi . a", "pms . a", "pms [ s ]", "* ppi", "* pps"}
+
+// floatAtoms ($F): the floats that are not equal to themselves or compare oddly.
+var floatAtoms = []string{"nan", "pinf", "ninf", "nz"}
+
+// loopSubjects ($M): what a for-in ranges over in the body-mutation family.
+var loopSubjects = []string{"m", "tm", "fm", "tfm", "pms", "a", "ta", "pa", "co", "cc"}
+
+// loopMutations ($U): what the loop body does to the subject before it uses the
+// loop variables (k, v / x).  "n" is the do-nothing control.
+var loopMutations = []string{
+	"n",
+	`delete ( m , "a" ) ; delete ( m , "b" )`,
+	"delete ( m , k )",
+	`delete ( tm , "a" ) ; delete ( tm , "b" )`,
+	"delete ( tm , k )",
+	"delete ( fm , k )",
+	`delete ( pms , "a" ) ; delete ( pms , "b" )`,
+	"m . c = 1 ; m . d = 2",
+	"tm . c = 1",
+	"m = { }",
+	"m = nil",
+	"a += 1",
+	"a = [ ]",
+	"ta += 1",
+	"ta = ta [ : 1 ]",
+	"pa += np",
+	"close ( co )",
+	"close ( cc )",
+	"co <- 1",
+}
+
+var fixedHoles = map[string][]string{}
+
+func init() {
+	fixedHoles["$K"] = keyAtoms
+	fixedHoles["$R"] = refusedTypes
+	fixedHoles["$P"] = nilPtrAtoms
+	fixedHoles["$D"] = ptrDestAtoms
+	fixedHoles["$F"] = floatAtoms
+	fixedHoles["$M"] = loopSubjects
+	fixedHoles["$U"] = loopMutations
+}
+
 func isHole(t string) bool {
-	return t == "$E" || t == "$L" || t == "$S" || t == "$T" || t == "$K" || t == "$R"
+	if t == "$E" || t == "$L" || t == "$S" || t == "$T" {
+		return true
+	}
+	_, ok := fixedHoles[t]
+	return ok
 }
 
 // instantiate builds the depth-1 pattern of a template.
@@ -341,10 +456,10 @@ func instantiate(t template, exprAtoms func(nholes int) []string, tyAtoms []stri
 			p.holes = append(p.holes, hole{i, exprAtoms(nh)})
 		case "$T":
 			p.holes = append(p.holes, hole{i, tyAtoms})
-		case "$K":
-			p.holes = append(p.holes, hole{i, keyAtoms})
-		case "$R":
-			p.holes = append(p.holes, hole{i, refusedTypes})
+		default:
+			if set, ok := fixedHoles[tk]; ok {
+				p.holes = append(p.holes, hole{i, set})
+			}
 		}
 	}
 	p.n = p.count()
